@@ -133,8 +133,13 @@ def NF(r: "ProvRecord") -> "bool":
 @spec
 def FormalSingle(r: "ProvRecord") -> "bool":
     return forall(
-        lambda u: implies(uri_in(u, PROV_ATTRIBUTES) and not (exact_class(r, "ProvMembership") and u == PROV_ATTR_ENTITY.uri),
+        lambda u: implies(uri_in(u, PROV_ATTRIBUTES) and not (IsMembership(r) and u == PROV_ATTR_ENTITY.uri),
                           vs_n(qm_get(r._attributes, u)) <= 1), "str")
+
+
+@spec
+def IsMembership(r: "ProvRecord") -> "bool":
+    return r._prov_type is not None and r._prov_type.uri == PROV_MEMBERSHIP.uri
 
 
 @spec
@@ -166,7 +171,7 @@ def PairOK(name: "Val", value: "Val") -> "bool":
 
 @spec
 def ArgsOK(attributes: "Seq[Tup[Val,Val]]") -> "bool":
-    return forall(lambda n, v: implies(seq_has(attributes, pair(n, v)), PairOK(n, v)), "Val", "Val")
+    return forall(lambda p: implies(seq_has(attributes, p), PairOK(p[0], p[1])), "Tup[Val,Val]")
 
 
 @spec
